@@ -345,6 +345,16 @@ static int mutate_ext(spif_obj_t x, int k, long how, long ext, char *t, const op
    business.  Returns 0 where the kind has no operation that takes a second object of its class. */
 static int mutate_alias(spif_obj_t x, int k, long how, long al)
 {
+    if (al >= 13) {
+        /* (added after seeded round 15) a formatted text of about 4096 characters: where a stack buffer for the common case ends and the heap path begins */
+        int width = (int)(4088 + how % 16) + (al == 15 ? 3000 : 0);
+        if (k == K_STR) spif_str_sprintf(SPIF_STR(x), (spif_charptr_t)"%0*ld", width, how);
+        else if (k == K_USTR) spif_ustr_sprintf((spif_ustr_t)x, (spif_charptr_t)"%0*ld", width, how);
+        else if (k == K_MBUFF) spif_mbuff_sprintf(SPIF_MBUFF(x), (spif_charptr_t)"%0*ld", width, how);
+        else return 0;
+        probe_hit("formatted_text_of_four_kilobytes");
+        return 1;
+    }
     /* every one of these doubles the object: beyond a few kilobytes the ordinary mutators take over, or a dozen of them in a row would use up the arena */
     if ((k == K_STR && SPIF_STR(x)->len > 8192) || (k == K_USTR && ((spif_ustr_t)x)->len > 8192) || (k == K_MBUFF && SPIF_MBUFF(x)->len > 8192)) return 0;
     switch (k) {
@@ -905,7 +915,7 @@ static void gen_common(plan_t *p, rng_t *r, int c05)
             const char *t = texts[rng_below(r, sizeof(texts) / sizeof(texts[0]))];
             if (rng_chance(r, 1, 4)) o = plan_op(p, 0, "mut", 3, (long)s, (long)rng_below(r, 1000), (long)rng_range(r, 1, kinds[s] == K_URL ? 9 : kinds[s] == K_TOK ? 6 : IS_MAP(kinds[s]) ? 11 : 8));
             else if (rng_chance(r, 1, 4)) o = plan_op(p, 0, "mut", 4, (long)s, (long)rng_below(r, 1000), 0L, (long)rng_range(r, 1, 8));
-            else if ((kinds[s] == K_STR || kinds[s] == K_USTR || kinds[s] == K_MBUFF) && rng_chance(r, 1, 4)) o = plan_op(p, 0, "mut", 5, (long)s, (long)rng_below(r, 1000), 0L, 0L, (long)rng_range(r, 1, 12));
+            else if ((kinds[s] == K_STR || kinds[s] == K_USTR || kinds[s] == K_MBUFF) && rng_chance(r, 1, 4)) o = plan_op(p, 0, "mut", 5, (long)s, (long)rng_below(r, 1000), 0L, 0L, (long)rng_range(r, 1, 15));
             else o = plan_op(p, 0, "mut", 2, (long)s, (long)rng_below(r, 1000));
             if (kinds[s] == K_MBUFF && rng_chance(r, 1, 3)) { static const char bin[] = "a\0b\xff\x80\0\0z"; op_str(o, bin, 1 + rng_below(r, 8)); }       /* bytes a C string cannot hold */
             else op_str(o, t, strlen(t));
